@@ -25,6 +25,10 @@ def generate(prop, seed, tier):
             n["depth"] = -1
         if "add_depth" in n and rng.random() < 0.2:
             n["add_depth"] = -1
+    # where the plan-building helpers live: scripts, notebooks (ipykernel compiles cells under such paths), REPL
+    world["helper_file"] = rng.choice([None, None, "/tmp/ipykernel_4242/3141592653.py", "<ipython-input-7-2f1c>",
+                                       "/home/u/my project/build plan.py", "/opt/site-packages/IPython/extensions/jobs.py",
+                                       "<stdin>", "C:\\Users\\u\\plan.py", "/srv/app/ipykernel_launcher_jobs.py"])
     cfg = worldgen.gen_cfg(rng, world, registry=registry, retry_p=0.2)
     cfg["max_errors"] = rng.choice([0, 0, 1, None])
     sc = worldgen.gen_sched(rng)
